@@ -19,7 +19,7 @@ RULE = ('each run = (i) 6 literal histories: in one logic (stratified over the 5
 ASSUMPTIONS = ['R1 value tables (sim/ref/refsem.py); literals = sentence or its negation, with designation marker, at one world']
 
 def plan(tier):
-    return dict(runs=1600 if tier == 'quick' else 60000, timeout=300 if tier == 'quick' else 3600)
+    return dict(runs=1600 if tier == 'quick' else 40000, timeout=300 if tier == "quick" else 5400)
 
 def key_of(spec, clause):
     sem = refsem.get(spec['logic'])
